@@ -1134,6 +1134,51 @@ def split_tuple_lets(root):
     return map_tree(root, fn)
 
 
+def inline_local_closures(root, ids):
+    """`let f = |p, q| body;` whose only uses are calls `f(a, b)` (never passed on, no `return` inside) -> each call becomes
+    `{ let p = a; let q = b; body }` and the binding goes: a closure applied on the spot is its body (it reads and writes the
+    captured places at the moment of the call either way)."""
+    cands = {}
+    for n in all_nodes(root):
+        if n.get("k") == "let" and "els" not in n and n.get("pat", {}).get("k") == "pbind" and isinstance(n.get("init"), dict):
+            c = hir.simp(n["init"])
+            if isinstance(c, dict) and c.get("k") == "closure" and all(q.get("k") == "pbind" and "Ref" not in str(q.get("mode", "")) for q in c.get("params", [])) \
+                    and not any(x.get("k") == "ret" for x in nodes_outside_closures(c["body"])):
+                cands[n["pat"]["id"]] = (n, c)
+    if not cands:
+        return root
+    uses = {i: 0 for i in cands}
+    calls = {i: 0 for i in cands}
+    for n in all_nodes(root):
+        if n.get("k") == "local" and n.get("id") in uses:
+            uses[n["id"]] += 1
+        if n.get("k") == "call" and isinstance(n.get("f"), dict):
+            f_ = hir.simp(n["f"])
+            if f_.get("k") == "local" and f_.get("id") in calls and len(n.get("args", [])) == len(cands[f_["id"]][1].get("params", [])):
+                calls[f_["id"]] += 1
+    good = {i for i in cands if uses[i] == calls[i] and calls[i] > 0}
+    if not good:
+        return root
+
+    def fn(n):
+        if n.get("k") == "call" and isinstance(n.get("f"), dict):
+            f_ = hir.simp(n["f"])
+            if f_.get("k") == "local" and f_.get("id") in good:
+                clo = cands[f_["id"]][1]
+                off = ids.next() * 1000
+                params, body = copy.deepcopy(clo["params"]), copy.deepcopy(clo["body"])
+                bound = {x.get("id") for x in list(all_nodes(params)) + list(all_nodes(body)) if x.get("k") == "pbind" and isinstance(x.get("id"), int)}
+                for x in list(all_nodes(params)) + list(all_nodes(body)):
+                    if x.get("k") in ("local", "pbind") and x.get("id") in bound:
+                        x["id"] += off
+                stmts = [{"k": "let", "pat": q, "init": a, "ln": n.get("ln"), "inl": "closure"} for q, a in zip(params, n["args"])]
+                return {"k": "block", "stmts": stmts, "expr": body, "ln": n.get("ln"), "ty": n.get("ty"), "norm": "closure-applied"}
+        if n.get("k") == "block" and any(isinstance(s_, dict) and s_.get("k") == "let" and s_.get("pat", {}).get("id") in good for s_ in n.get("stmts", [])):
+            return dict(n, stmts=[s_ for s_ in n["stmts"] if not (isinstance(s_, dict) and s_.get("k") == "let" and s_.get("pat", {}).get("id") in good)])
+        return n
+    return map_tree(root, fn)
+
+
 def split_struct_lets(root):
     """`let Struct(a, b, c) = *p;` / `let Struct { x, y } = v;` on a place (irrefutable: no `else`) -> `let a = p.0; let b = p.1; ...`
     (Copy fields read from a place; the order of the reads is immaterial)."""
@@ -1608,6 +1653,7 @@ def normalise_crate(name, crate):
                                            {x["inl"] for x in all_nodes(h2) if x.get("inl")})
             h = h2
         h = map_tree(h, _matches_literals)
+        h = inline_local_closures(h, ids)
         h = bool_tuple_match(h)
         h = fold_constant_ifs(h)
         h = map_tree(h, _or_split)
